@@ -6,6 +6,7 @@ package c09
 import (
 	"fmt"
 	"os"
+	"runtime/pprof"
 	"sort"
 	"strconv"
 	"strings"
@@ -301,6 +302,7 @@ func watchdog(out *kit.Out, id string, ops []string) []string {
 			out.Line(l)
 		}
 		out.Flush()
+		pprof.Lookup("goroutine").WriteTo(os.Stderr, 1) // where everybody is blocked (diagnostic only)
 		fmt.Fprintln(os.Stderr, "HANG: the alert service did not return within 20s while executing case", id, "(deadlock); goroutines blocked in Service.mu / bufHandler.Close")
 		os.Exit(3)
 		return nil
